@@ -123,7 +123,10 @@ def main():
         mod.prepare()
 
     # 1. rebuild
-    ok, out = core.lake_build()
+    props_mod = "PsecModel.Props." + pid
+    has_props = os.path.exists(os.path.join(core.LEAN_DIR, "PsecModel", "Props", pid + ".lean"))
+    targets = getattr(mod, "BUILD_TARGETS", ["psecdrv"] + ([props_mod] if has_props else []))
+    ok, out = core.lake_build(targets)
     build_failed = not ok
     if build_failed:
         if getattr(mod, "BUILD_BREAK_IS_OBLIGATION", False):
@@ -136,7 +139,7 @@ def main():
     theorems = list(mod.OBLIGATIONS)
     aud = {"theorems": {}, "checker_cmd": ""}
     if not build_failed:
-        aud = core.audit(pid, theorems)
+        aud = core.audit(pid, theorems, getattr(mod, "AUDIT_IMPORT", props_mod if has_props else "PsecModel.Exec"))
     hits = core.scan_sources()
     discharged = sum(1 for t in theorems if aud["theorems"].get(t, {}).get("ok"))
     for t in theorems:
@@ -153,6 +156,8 @@ def main():
     except core.InfraError as e:
         print("INFRA:", e)
         return 2
+    if hasattr(mod, "second_pass"):
+        mod.second_pass(cases, replies)
     dis, fails = evaluate(cases, replies)
 
     # falsifier search after a break without a failing input
@@ -163,6 +168,8 @@ def main():
             rng2 = random.Random(f"{pid}-{seed}-{a.tier}-search-{k}")
             extra = list(mod.generate(rng2, a.tier, seed * 1000 + k + 1))
             rep2 = core.run_driver([c.lines for c in extra])
+            if hasattr(mod, "second_pass"):
+                mod.second_pass(extra, rep2)
             d2, f2 = evaluate(extra, rep2)
             searched += len(extra)
             if f2:
